@@ -1,6 +1,6 @@
 ----------------------------- MODULE Trace_Attrs -----------------------------
 (***************************************************************************)
-(* ADJUDICATE for C16: records [item, real, compiled].                     *)
+(* ADJUDICATE for C16: records [item, real, compiled, free].               *)
 (***************************************************************************)
 EXTENDS Attrs, Json, IOUtils
 Rec == ndJsonDeserialize(IOEnv.VERIF_TRACE)
@@ -10,10 +10,17 @@ Next == i = 0 /\ i' \in DOMAIN Rec
 Spec == Init /\ [][Next]_i
 R == Rec[i]
 PredEq == (R.real = "OK") = (Outcome(R.item) \in {"Accept", "RejectAtTypeck"})
-Judge == i = 0 \/
+\* free-form items (no descriptor, no prediction): totality only - no panic, a rejection is a compile error of the
+\* real entry point, an accepted item compiles
+FreeOK == /\ C16_NoPanic(R.real, R.compiled) /\ C16_EntryPoint(R.real, R.compiled)
+          /\ ((R.real = "OK" /\ R.compiled # "na") => R.compiled = "ok")
+JudgeItem ==
   /\ (C16_NoPanic(R.real, R.compiled) \/ PrintT(<<"BADPANIC", ToJson(i)>>))
   /\ (C16_EntryPoint(R.real, R.compiled) \/ PrintT(<<"BADENTRY", ToJson(i)>>))
   /\ (C16_Diagnosed(R.item, R.real, R.compiled) \/ PrintT(<<"BADSILENT", ToJson(i)>>))
   /\ (C16_Compiles(R.item, R.real, R.compiled) \/ PrintT(<<"BADCOMPILE", ToJson(i)>>))
   /\ (PredEq \/ PrintT(<<"DRIFT", ToJson(i)>>))
+Judge == IF i = 0 THEN TRUE
+         ELSE IF R.free THEN FreeOK \/ PrintT(<<"BADFREE", ToJson(i)>>)
+         ELSE JudgeItem
 =============================================================================
